@@ -11,10 +11,12 @@ TRUSTED = [
     "for fst/snd/andb/orb/negb as shipped); N, Z, nat stay the extracted inductives; OCaml 4.13.1; ocaml/driver.ml",
     "correspondence check (differential testing of the extracted model against the real binary and the tuc library): "
     "harness/*.py, harness-rs/src/main.rs, shim/faultio.c; its strength is bounded by the generators",
-    "translation tie: translator/src/main.rs (rs2coq, built on syn 2): maps the Rust subset of five functions of src/bounds to "
-    "Gallina in a result monad (checked i32/usize arithmetic = debug-build semantics, wrapping `as` casts, match arms in order with "
-    "guards, bail!/return/? as early exits, Result/Option as option with the error message dropped); coq/Tie/RsPrelude.v is its "
-    "hand-written target library",
+    "translation tie: translator/src/main.rs (rs2coq, built on syn 2): maps the Rust subset of the 40 translated functions "
+    "(DESIGN.md section 2.6b) to Gallina in a result monad (checked i32/usize arithmetic = debug-build semantics, wrapping `as` "
+    "casts, match arms in order with guards, bail!/return/? as early exits, Result/Option as option with the error message dropped, "
+    "loops as folds or on fuel, writers as accumulators, scratch vectors as state, the default cargo features); coq/Tie/Rs*.v are "
+    "its hand-written target libraries, including the hybrids: model functions standing for callees that are not translated (bstr, "
+    "memchr, regex, serde_json, std readers, From<Vec<BoundOrFiller>>, the greedy literal splitter)",
     "modelled, not verified: bstr (find_iter leftmost non-overlapping, for_byte_record), memchr, regex (mini-family, "
     "leftmost-first; \\b|\\B = every scalar boundary of valid UTF-8), serde_json::to_string escape table, pico-args 0.5, "
     "std BufReader/BufWriter/read_line/read_until/from_utf8/i32::from_str",
